@@ -11,6 +11,7 @@ import (
 	"time"
 
 	"github.com/foxboron/go-uefi/efi/signature"
+	"github.com/foxboron/go-uefi/efi/util"
 )
 
 // streamEval decodes one byte string with the real decoder, the Lean Impl model and the Lean Spec.
@@ -37,6 +38,20 @@ func streamEval(c *Ctx, cs Case, prop string) {
 	} else if err == nil {
 		reenc = db.Bytes()
 		goObs = "ok " + goDbStr(db) + " reenc=" + hx(reenc)
+		// an encoding that is still held is a value of its own: encoding something else must not change it
+		snap := append([]byte{}, reenc...)
+		safely(func() {
+			o := signature.NewSignatureDatabase()
+			o.Append(signature.CERT_SHA256_GUID, util.EFIGUID{Data1: 0x11111111}, bytes.Repeat([]byte{0x11}, 32))
+			_ = o.Bytes()
+			for _, l := range db {
+				_ = l.Bytes()
+			}
+		})
+		if !bytes.Equal(reenc, snap) {
+			c.Fail(Failure{Kind: "property", What: "the bytes returned by SignatureDatabase.Bytes() changed when another database / list was encoded (the result aliases memory that is reused)", Case: cs, Go: clip(hx(reenc)), Spec: clip(hx(snap))})
+			reenc = snap
+		}
 	}
 	c.Count(cs.Key(), len(b) > 0, prop+"/"+cls+"/"+strings.SplitN(goObs, " ", 2)[0])
 	c.Class("reader=" + src.kind)
